@@ -180,7 +180,11 @@ INS_CELLS = [
     ("ins-gw5", "GW5", {"nlive": 400, "min_samples": 100, "max_iteration": 8}, None),
 ]
 
-QUICK_INS = [c[0] for c in INS_CELLS]
+# every stopping criterion and alias on its own (thorough tiers)
+for _name, _tol in (("ratio_ns", 0.0), ("Z_err", 1.03), ("evidence_error", 1.03), ("log_dZ", 0.01), ("log_evidence", 0.01), ("ess", 1200.0), ("fractional_error", 0.03), ("ratio", -0.5)):
+    INS_CELLS.append((f"ins-criterion-{_name}", "G2u", {"stopping_criterion": _name, "tolerance": _tol, "max_iteration": 15}, None))
+
+QUICK_INS = [c[0] for c in INS_CELLS if not c[0].startswith("ins-criterion-")]
 
 
 def ins_cases(seed, tier, scratch, names=None):
@@ -188,7 +192,7 @@ def ins_cases(seed, tier, scratch, names=None):
 
     cells = {c[0]: c for c in INS_CELLS}
     if names is None:
-        names = QUICK_INS
+        names = QUICK_INS if tier == "quick" else [c[0] for c in INS_CELLS]
     reps = 1 if tier == "quick" else 8
     out = []
     k = 0
